@@ -43,12 +43,11 @@ type ClientConn struct {
 
 	writeMu sync.Mutex // serializes writes of whole transactions to Connection
 
-	// Transactions that go through the server's outbox reach the connection in the order they were queued: the
-	// dispatcher hands out sendQueued as a ticket, and a sender waits (on sendCond, whose lock is writeMu) until
-	// sendDone has reached its ticket.
-	sendQueued uint64
-	sendDone   uint64
-	sendCond   *sync.Cond
+	// Transactions that go through the server's outbox reach the connection in the order they were queued: every
+	// queued transaction gets a gate, a mutex that stays locked until the transaction has been written, and waits for
+	// the gate of the one queued before it.  sendTail is the gate of the transaction queued last; only the dispatcher
+	// touches it.
+	sendTail *sync.Mutex
 }
 
 func (cc *ClientConn) FileRoot() string {
